@@ -82,6 +82,7 @@ type Backend struct {
 	Listing          func(path string) (int, string)
 	HealthStatus     int32 // 0 => 200
 	healthHits       int64
+	holder           int // fd of the bound, non-listening socket that keeps the port while the backend refuses
 	conns            sync.WaitGroup
 	open             int64
 	closed           bool
@@ -115,13 +116,47 @@ func (b *Backend) SetBehaviour(bh Behaviour) {
 	b.SetScript(func(int, *Seen) Behaviour { return bh })
 }
 
-// Refuse closes the listener (connections are refused); Listen re-opens the same port.
+// Refuse closes the listener (connections are refused); Listen re-opens the same port. While refusing the port
+// stays OURS: a socket is bound to it without listening (a connect to it is answered with RST, i.e. refused),
+// so that no other process's ":0" listener — several harnesses may run at once — can be handed the port and
+// answer in this backend's place.
 func (b *Backend) Refuse() {
 	b.mu.Lock()
 	defer b.mu.Unlock()
 	if !b.refusing {
 		b.refusing = true
 		b.ln.Close()
+		b.hold()
+	}
+}
+
+// hold binds (without listening) the backend's address; best effort.
+func (b *Backend) hold() {
+	addr, err := net.ResolveTCPAddr("tcp", b.addr)
+	if err != nil || addr.IP.To4() == nil {
+		return
+	}
+	for i := 0; i < 20; i++ {
+		fd, err := syscall.Socket(syscall.AF_INET, syscall.SOCK_STREAM, 0)
+		if err != nil {
+			return
+		}
+		_ = syscall.SetsockoptInt(fd, syscall.SOL_SOCKET, syscall.SO_REUSEADDR, 1)
+		sa := &syscall.SockaddrInet4{Port: addr.Port}
+		copy(sa.Addr[:], addr.IP.To4())
+		if err := syscall.Bind(fd, sa); err == nil {
+			b.holder = fd
+			return
+		}
+		syscall.Close(fd)
+		time.Sleep(time.Millisecond)
+	}
+}
+
+func (b *Backend) unhold() {
+	if b.holder > 0 {
+		syscall.Close(b.holder)
+		b.holder = 0
 	}
 }
 
@@ -129,6 +164,7 @@ func (b *Backend) Listen() {
 	b.mu.Lock()
 	defer b.mu.Unlock()
 	if b.refusing {
+		b.unhold()
 		for i := 0; i < 50; i++ {
 			ln, err := net.Listen("tcp", b.addr)
 			if err == nil {
@@ -149,6 +185,7 @@ func (b *Backend) Close() {
 	if !b.refusing {
 		b.ln.Close()
 	}
+	b.unhold()
 	for c := range b.live {
 		c.Close()
 	}
